@@ -102,7 +102,8 @@ pub fn fz_bddops(data: &[u8]) -> Result<(), String> {
                 .rev()
                 .take(10)
                 .enumerate()
-                .map(|(i, b)| match b % 3 {
+                .map(|(i, b)| match b % 4 {
+                    3 => props::stream::Sched::DropLast,
                     0 => props::stream::Sched::Deliver(b % 5),
                     1 => props::stream::Sched::PollRelay(u16::from_le_bytes([*b, (i as u8).wrapping_mul(31)])),
                     _ => props::stream::Sched::PollRecv(u16::from_le_bytes([*b, (i as u8).wrapping_mul(17)])),
